@@ -269,7 +269,7 @@ def run_dfs(fxv, rd, progs, tag, chunk=40, maxsched=300, preempt=2, par=12):
                 info.update(json.loads(line))
             except Exception:
                 pass
-        return {"trace": trace, "rc": rc, "info": info, "stderr": se[-1500:], "names": [n for n, _ in group],
+        return {"trace": trace, "rc": rc, "info": info, "stderr": v.clip_stderr(se, 1500), "names": [n for n, _ in group],
                 "prog": pf}
     return v.parallel_map(one, list(enumerate(groups)), jobs=par)
 
@@ -287,7 +287,7 @@ def run_free(fxv, rd, jobs, par=8):
                 info.update(json.loads(line))
             except Exception:
                 pass
-        return {"trace": trace, "rc": rc, "info": info, "stderr": se[-1500:], "args": args, "tag": tag}
+        return {"trace": trace, "rc": rc, "info": info, "stderr": v.clip_stderr(se, 1500), "args": args, "tag": tag}
     try:
         return v.parallel_map(one, jobs, jobs=par)
     finally:
